@@ -328,7 +328,8 @@ END
 FIXED_QUADS = ("FQ DEFINITIONS ::= BEGIN\nBm1 ::= BMPString (FROM (\"A\"..\"Z\" | {0,0,0,255}))\nBm2 ::= BMPString (FROM (\"A\"..\"Z\" | {0,0,1,0}))\n"
                "Bm3 ::= BMPString (FROM (\"A\"..\"Z\" | {0,0,1,1}))\nUm ::= UniversalString (FROM (\"a\"..\"c\" | {0,0,1,0}))\nEND\n")
 
-FIXED_UNSIGNED_OF = "FU DEFINITIONS ::= BEGIN Uo ::= SEQUENCE OF INTEGER (0..4294967295) Un ::= INTEGER (0..MAX) END"
+FIXED_UNSIGNED_OF = ("FU DEFINITIONS ::= BEGIN Uo ::= SEQUENCE OF INTEGER (0..4294967295) Un ::= INTEGER (0..MAX) "
+                     "Iso ::= ISO646String IsoS ::= SEQUENCE { a ISO646String (SIZE(1..4)) OPTIONAL, b GraphicString OPTIONAL, c T61String OPTIONAL } END")
 
 FIXED_COMPOUND = """FXC DEFINITIONS AUTOMATIC TAGS ::= BEGIN
 
